@@ -131,6 +131,55 @@ fn gen_big_tables_tile(rng: &mut Rng) -> GTile {
 
 fn impl_decode(b: &[u8]) -> Result<VectorTile, String> { match guarded(|| VectorTile::from_blob(&Blob::from(b.to_vec()))) { Ok(Ok(t)) => Ok(t), Ok(Err(_)) => Err("err".into()), Err(_) => Err("panic".into()) } }
 
+/// C02 / C03 for the vector-tile operators: `from_vectortiles_merged` over sources that hold tiles at shared and at
+/// private coordinates, store them in different compressions and suspend a different number of times before they
+/// answer.  A stream over a box must deliver exactly the tiles the single lookups return inside it - each once, with
+/// identical bytes - and every delivered tile must lie inside the advertised coverage.
+pub fn run_stream_vs_lookup(ctx: &Ctx, col: &mut Collector) -> Result<()> {
+	let mut rng = Rng::new(ctx.seed ^ 0xc02_1011);
+	let rt = tokio::runtime::Builder::new_multi_thread().worker_threads(2).enable_all().build()?;
+	let comps = [TileCompression::Uncompressed, TileCompression::Gzip, TileCompression::Brotli];
+	for i in 0..(if ctx.thorough { 400 } else { 60 }) {
+		let k = rng.range(2, 4) as usize;
+		let mut names = Vec::new();
+		let shared: Vec<(u8, u32, u32)> = vec![(3, 1, 2), (7, 37, 41), (7, 70, 44), (7, 63, 63), (7, 64, 64)];
+		for j in 0..k {
+			let name = format!("sv{i}_{j}_{}", ctx.seed);
+			let c = *rng.pick(&comps);
+			let mut stored = Vec::new();
+			for c3 in &shared { if rng.chance(3, 4) { stored.push((*c3, compress(Blob::from(enc_tile(&gen_tile(&mut rng, None))), &c).unwrap().into_vec())); } }
+			for _ in 0..rng.below(4) { let z = *rng.pick(&[3u8, 7]); let m = (1u32 << z) - 1; stored.push(((z, rng.below(m as u64 + 1) as u32, rng.below(m as u64 + 1) as u32), compress(Blob::from(enc_tile(&gen_tile(&mut rng, None))), &c).unwrap().into_vec())); }
+			if stored.is_empty() { stored.push(((3, 1, 2), compress(Blob::from(enc_tile(&gen_tile(&mut rng, None))), &c).unwrap().into_vec())); }
+			// keep generated tiles valid for merging: tag lists of even length only
+			let yields = *rng.pick(&[0usize, 0, 1, 2, 5]);
+			crate::memsrc::register_slow_open(&name, Box::new(MemSource::new(&name, stored, TileFormat::PBF, c).with_yields(yields)), [2usize, 0, 1][j % 3]);
+			names.push(name);
+		}
+		let vpl = format!("from_vectortiles_merged [ {} ]", names.iter().map(|n| format!("from_container filename={n}")).collect::<Vec<_>>().join(", "));
+		let desc = format!("vector pipeline #{i} (seed {}): {vpl}", ctx.seed);
+		let op = match guarded(|| rt.block_on(factory().operation_from_vpl(&vpl))) { Ok(Ok(o)) => o, _ => continue };
+		let cov = op.get_parameters().bbox_pyramid.clone();
+		for bb in [TileBBox::new(3, 0, 0, 7, 7).unwrap(), TileBBox::new(7, 33, 40, 72, 45).unwrap(), TileBBox::new(7, 60, 60, 66, 66).unwrap(), TileBBox::new(7, 0, 0, 127, 127).unwrap(), TileBBox::new(3, 1, 2, 1, 2).unwrap()] {
+			if bb.count_tiles() > 10000 && i % 6 != 0 { continue; }
+			col.spec_cases += 1;
+			let b2 = bb.clone();
+			let Ok(items) = guarded(|| rt.block_on(async { op.get_tile_stream(b2).await.collect().await })) else { col.violation("vector-stream-panic", &desc, &desc, &format!("stream over {bb:?} panicked")); break; };
+			let mut got: Vec<(u32, u32, Vec<u8>)> = items.iter().map(|(c, b)| (c.x, c.y, b.as_slice().to_vec())).collect(); got.sort();
+			let mut exp: Vec<(u32, u32, Vec<u8>)> = Vec::new(); let mut undecodable = false;
+			for c2 in bb.iter_coords() {
+				match guarded(|| rt.block_on(op.get_tile_data(&TileCoord3 { x: c2.x, y: c2.y, z: bb.level }))) { Ok(Ok(Some(b))) => exp.push((c2.x, c2.y, b.as_slice().to_vec())), Ok(Ok(None)) => {}, _ => { undecodable = true; } }
+			}
+			exp.sort();
+			if undecodable { continue; } // a generated tile with an odd tag list: lookups report an error, streams have no error channel
+			if got != exp {
+				let pos = |v: &Vec<(u32, u32, Vec<u8>)>| v.iter().map(|g| (g.0, g.1, g.2.len())).collect::<Vec<_>>();
+				col.violation("vector-stream-vs-lookup", &desc, &desc, &format!("stream over {bb:?} delivers (x, y, bytes) {:?}; single lookups inside the box give {:?}{}", pos(&got), pos(&exp), if pos(&got) == pos(&exp) { " - same coordinates and sizes, different bytes" } else { "" })); break; }
+			for (x, y, _) in &got { if !cov.get_level_bbox(bb.level).contains2(&versatiles_core::types::TileCoord2::new(*x, *y)) { col.violation("vector-coverage", &desc, &desc, &format!("tile {}/{x}/{y} is delivered but lies outside the advertised coverage", bb.level)); } }
+		}
+	}
+	Ok(())
+}
+
 pub fn run(ctx: &Ctx, focus: &str) -> Result<()> {
 	let mut col = Collector::new(&ctx.out)?;
 	let mut rng = Rng::new(ctx.seed ^ 0x1011);
@@ -274,14 +323,20 @@ pub fn run(ctx: &Ctx, focus: &str) -> Result<()> {
 			// data table: ids 0..3 (some missing), columns `id`, `extra`, `kind`
 			let mut rows: Vec<(u64, String, String)> = Vec::new();
 			for id in 0..4u64 { if rng.chance(2, 3) { rows.push((id, rng.pick(&["x", "y", "true", "12", "-5", "1.5", ""]).to_string(), rng.pick(&["motorway", "path", ""]).to_string())); } }
-			let csv = format!("id,extra,kind\n{}", rows.iter().map(|(a, b, c)| format!("{a},{b},{c}\n")).collect::<String>());
+			// the table has the id column alone, or one or two further columns; a table without further columns gives empty rows
+			let ncols = *rng.pick(&[2usize, 2, 2, 1, 0]);
+			let csv = format!("{}\n{}", ["id", "id,extra", "id,extra,kind"][ncols], rows.iter().map(|(a, b, c)| match ncols { 0 => format!("{a}\n"), 1 => format!("{a},{b}\n"), _ => format!("{a},{b},{c}\n") }).collect::<String>());
+			// sometimes the stage runs behind a merging pass with the same table: every matched feature then already carries all
+			// values of its row, and the outcome must be that of the single pass
+			let twice = rng.chance(1, 3);
 			let csv_path = dir.join(format!("data_{i}.csv")); std::fs::write(&csv_path, &csv)?;
 			let (replace, remove, include) = (rng.chance(1, 2), rng.chance(1, 2), rng.chance(1, 2));
 			let name = format!("u{i}_{}", ctx.seed);
 			let c = *rng.pick(&[TileCompression::Uncompressed, TileCompression::Gzip]);
 			register(&name, Box::new(MemSource::new(&name, vec![((3, 1, 2), compress(Blob::from(enc_tile(&t)), &c).unwrap().into_vec())], TileFormat::PBF, c)));
-			let vpl = format!("from_container filename={name} | vectortiles_update_properties data_source_path=\"{}\" layer_name=\"{layer_name}\" id_field_tiles=tid id_field_data=id replace_properties={replace} remove_non_matching={remove} include_id={include}", csv_path.to_str().unwrap());
-			let desc = format!("update tile={} layer={layer_name} replace={replace} remove={remove} include_id={include} csv={csv:?}", hx(&enc_tile(&t)));
+			let first = if twice { format!(" | vectortiles_update_properties data_source_path=\"{}\" layer_name=\"{layer_name}\" id_field_tiles=tid id_field_data=id replace_properties=false remove_non_matching=false include_id={include}", csv_path.to_str().unwrap()) } else { String::new() };
+			let vpl = format!("from_container filename={name}{first} | vectortiles_update_properties data_source_path=\"{}\" layer_name=\"{layer_name}\" id_field_tiles=tid id_field_data=id replace_properties={replace} remove_non_matching={remove} include_id={include}", csv_path.to_str().unwrap());
+			let desc = format!("update tile={} layer={layer_name} replace={replace} remove={remove} include_id={include} csv={csv:?}{}", hx(&enc_tile(&t)), if twice { " behind a merging pass (replace=false remove=false) with the same table" } else { "" });
 			col.spec_cases += 1;
 			// expected content
 			let parse_val = |s: &str| -> String { if s.is_empty() { "s-".into() } else if s == "true" { "b1".into() } else if s == "false" { "b0".into() } else if s.starts_with('-') && s[1..].chars().all(|c| c.is_ascii_digit()) { format!("i{s}") } else if s.chars().all(|c| c.is_ascii_digit()) { format!("u{s}") } else if s.parse::<f64>().is_ok() && s.contains('.') { format!("d{}", s.parse::<f64>().unwrap().to_bits()) } else { format!("s{}", hx(s.as_bytes())) } };
@@ -301,7 +356,7 @@ pub fn run(ctx: &Ctx, focus: &str) -> Result<()> {
 						if let Some(row) = rows.iter().find(|r| r.0.to_string() == idtxt) {
 							let mut newp: BTreeMap<Vec<u8>, String> = BTreeMap::new();
 							if include { newp.insert(b"id".to_vec(), format!("u{}", row.0)); }
-							newp.insert(b"extra".to_vec(), parse_val(&row.1)); newp.insert(b"kind".to_vec(), parse_val(&row.2));
+							if ncols >= 1 { newp.insert(b"extra".to_vec(), parse_val(&row.1)); } if ncols >= 2 { newp.insert(b"kind".to_vec(), parse_val(&row.2)); }
 							if replace { m = newp; } else { m.extend(newp); }
 						} else if remove { continue; }
 					}
@@ -316,8 +371,8 @@ pub fn run(ctx: &Ctx, focus: &str) -> Result<()> {
 					let raw = versatiles_core::utils::decompress(b, &op.get_parameters().tile_compression).map(|x| x.into_vec()).unwrap_or_default();
 					// the same join on the Coq model (Model/MVTUpdate.v): rows typed as above, and which entries of the named layer's
 					// value table print (Display) as which row's id
-					if t.iter().filter(|l| l.name == layer_name).count() <= 1 {
-						let rows_txt = if rows.is_empty() { "-".to_string() } else { rows.iter().map(|(a, b, c)| format!("{}=u{a}&{}={}&{}={}", hx(b"id"), hx(b"extra"), parse_val(b), hx(b"kind"), parse_val(c))).collect::<Vec<_>>().join("|") };
+					if !twice && t.iter().filter(|l| l.name == layer_name).count() <= 1 {
+						let rows_txt = if rows.is_empty() { "-".to_string() } else { rows.iter().map(|(a, b, c)| { let mut r = format!("{}=u{a}", hx(b"id")); if ncols >= 1 { r += &format!("&{}={}", hx(b"extra"), parse_val(b)); } if ncols >= 2 { r += &format!("&{}={}", hx(b"kind"), parse_val(c)); } r }).collect::<Vec<_>>().join("|") };
 						let idmap: Vec<String> = t.iter().find(|l| l.name == layer_name).map(|l| l.vals.iter().enumerate().filter_map(|(j, v)| {
 							let txt = match v { GVal::Str(s) => s.clone(), GVal::Bool(b) => b.to_string(), GVal::UInt(u) => u.to_string(), GVal::Int64(z) | GVal::SInt(z) => z.to_string(), GVal::F32(b) => f32::from_bits(*b).to_string(), GVal::F64(b) => f64::from_bits(*b).to_string() };
 							rows.iter().position(|r| r.0.to_string() == txt).map(|r| format!("{j}:{r}")) }).collect()).unwrap_or_default();
